@@ -27,8 +27,23 @@ func TestC20(t *testing.T) {
 	for i := 0; i < nh && !run.Stop(); i++ {
 		cr := r.Fork()
 		w := NewWorld(cr.Fork())
+		// an event type may be known to the Broker before its first pipeline: the threshold setters create it
+		var pre []string
+		if cr.Intn(3) == 0 {
+			for _, ty := range a.Types {
+				switch cr.Intn(4) {
+				case 0:
+					w.B.SetSuccessThreshold(eventlogger.EventType(ty), 0)
+					pre = append(pre, "SetSuccessThreshold("+ty+",0)")
+				case 1:
+					w.B.SetSuccessThresholdSinks(eventlogger.EventType(ty), 0)
+					pre = append(pre, "SetSuccessThresholdSinks("+ty+",0)")
+				}
+			}
+			run.Add("histories_with_thresholds_set_first", 1)
+		}
 		ops, mis := buildConfig(w, a, plainStyle, cr, cr.Range(1, 8))
-		run.Progress("C20 %v", opsString(ops))
+		run.Progress("C20 %v %v", pre, opsString(ops))
 		if mis != "" {
 			run.Inconclusive("registry diverged from the model (C05/C06/C07's subject): " + mis)
 			continue
@@ -60,7 +75,7 @@ func TestC20(t *testing.T) {
 			}
 		}
 		wit := func(extra any) any {
-			return map[string]any{"history": opsString(ops), "detail": extra}
+			return map[string]any{"before_the_history": pre, "history": opsString(ops), "detail": extra}
 		}
 		// no node fails
 		before := map[*RecNode]int{}
